@@ -38,6 +38,11 @@ func (vc *VC) Run() {
 		env := vc.newEnv(st, st)
 		for _, l := range vc.fc.Lets {
 			tv := vc.tr(l.E, env)
+			if _, isInt := basicInt(tv.T); isInt && !tv.Untyped && strings.HasPrefix(l.Name, "c") && len(l.Name) > 1 && l.Name[1] >= 'A' && l.Name[1] <= 'Z' {
+				// cName: the entry value as a named constant (usable inside quantifier patterns,
+				// where an expanded spec macro would put arithmetic)
+				tv.S = vc.define("let_"+mangle(l.Name), vc.sortOf(tv.T), tv.S)
+			}
 			vc.entryEnv[l.Name] = tv
 			env.vars[l.Name] = tv
 		}
@@ -112,6 +117,23 @@ func (vc *VC) Run() {
 		for g := range vc.globalsRead {
 			if !vc.prog.onlyWrittenInInit(g) {
 				vc.unsupportedf("globalinv %s mentions %s which is written outside init functions", gi.Name, g.Name())
+				ok = false
+			}
+		}
+		// a function that never touches the invariant's variables gets nothing from it (and its
+		// quantifiers only cost solver time)
+		if ok && len(vc.globalsRead) > 0 {
+			uses := false
+			for _, bb := range fn.Blocks {
+				for _, ins := range bb.Instrs {
+					for _, op := range ins.Operands(nil) {
+						if g, isG := (*op).(*ssa.Global); isG && vc.globalsRead[g] {
+							uses = true
+						}
+					}
+				}
+			}
+			if !uses {
 				ok = false
 			}
 		}
@@ -632,7 +654,26 @@ func (vc *VC) checkInvariant(li *loopInfo, from *ssa.BasicBlock, st *State, whic
 		if label == "" {
 			label = fmt.Sprintf("inv%d", i)
 		}
-		vc.obligeG("loop-"+which, fmt.Sprintf("loop%d:%s", li.ord, label), g, vc.trBool(c.E, env), vc.loopPos(li))
+		goal := ""
+		if which == "back" && li.hdrSt != nil {
+			// universally quantified parts of an invariant on the back edge: the goal is skolemised and the
+			// induction hypothesis (the same clause, assumed at the loop head) is instantiated at the
+			// skolem constants, so that preservation does not depend on the solver finding that instance
+			var hyps []string
+			vc.goalSks = map[string]TV{}
+			goal, hyps = vc.trGoalHyp(c.E, env, vc.loopEnv(li, nil, li.hdrSt), 0)
+			for _, h := range hyps {
+				vc.addFact("assume", imp(vc.reach[li.header.Index], h))
+			}
+			vc.applyInstances(label, vc.goalSks)
+			vc.goalSks = nil
+		} else {
+			vc.goalSks = map[string]TV{}
+			goal = vc.trGoal(c.E, env)
+			vc.applyInstances(label, vc.goalSks)
+			vc.goalSks = nil
+		}
+		vc.obligeG("loop-"+which, fmt.Sprintf("loop%d:%s", li.ord, label), g, goal, vc.loopPos(li))
 	}
 	if which == "back" && li.lc.Decreases != nil {
 		d := vc.coerceInt(vc.tr(li.lc.Decreases.E, env), nil)
@@ -1411,10 +1452,13 @@ func (vc *VC) ret(x *ssa.Return, st *State) {
 				goal = q.Body
 			}
 		}
-		gt := vc.trBool(goal, genv)
-		vc.oblige("post", label, gt, x.Pos())
+		vc.goalSks = map[string]TV{}
+		gterm := vc.trGoal(goal, genv)
+		vc.applyInstances(label, vc.goalSks)
+		vc.goalSks = nil
+		vc.oblige("post", label, gterm, x.Pos())
 		// postconditions are proved in order: an earlier one may be used for the later ones
-		vc.assume(vc.guard(), gt)
+		vc.assume(vc.guard(), vc.trBool(goal, genv))
 	}
 	for _, gi := range vc.prog.cs.GlobalInvs {
 		if gi.Pkg == vc.pkg.Path() && gi.Init == vc.name {
